@@ -236,7 +236,7 @@ def floatenum_case(draw):
             ops.append({'op': kind})
         else:
             ops.append({'op': kind, 'i': draw(st.integers(0, 12))})
-    return {'kind': 'floatenum', 'labels': labels, 'unit': unit, 'ops': ops, 'with_write_idx': draw(st.booleans())}
+    return {'kind': 'floatenum', 'labels': labels, 'unit': unit, 'ops': ops, 'with_write_idx': draw(st.sampled_from([False, True, 'coerce']))}
 
 
 def check_floatenum(ctx, case):
@@ -250,9 +250,12 @@ def check_floatenum(ctx, case):
         ctx.label('floatenum:labels-refused')
         return
     hwidx = []
+    coerce = case['with_write_idx'] == 'coerce'
     if case['with_write_idx']:
         def write_fr_idx(self, value):
             hwidx.append(int(value))
+            if coerce:       # the hardware ends up with another index than requested (clamps, reads back)
+                return min(self.parameters['fr'].valuedict)
             return value
         attrs['write_fr_idx'] = write_fr_idx
     try:
@@ -297,7 +300,11 @@ def check_floatenum(ctx, case):
             if r[0] == 'changed':
                 got = r[2][0]
                 best = min(abs(v - x) for v in vdict.values())
-                if abs(abs(got - x) - best) > 1e-12 * max(1.0, abs(x)):
+                if coerce:
+                    if got != vdict[int(mobj.fr_idx)]:
+                        ctx.finding('floatenum:reply-differs-from-index', sub, f'write {x}: reply {got}, index now {int(mobj.fr_idx)} -> {vdict[int(mobj.fr_idx)]}')
+                        return
+                elif abs(abs(got - x) - best) > 1e-12 * max(1.0, abs(x)):
                     ctx.finding('floatenum:not-closest-value', sub, f'write {x}: selected {got}, allowed values {sorted(vdict.values())}')
                     return
                 ctx.ok('closest-value-selected')
